@@ -9,7 +9,7 @@ git -C /repo archive HEAD | tar -x -C $D
 (cd $D && git init -q . && git apply "$P") || { echo "PATCH DOES NOT APPLY"; exit 3; }
 cd "$(dirname "$0")/.."
 export VERIF_BUDGET_S=${VERIF_BUDGET_S:-20}
-VERIF_REPO=$D ./check $C quick > $D/out.txt 2>&1; echo "check exit=$?"
+VERIF_REPO=$D ./check $C ${TIER:-quick} > $D/out.txt 2>&1; echo "check exit=$?"
 R=$(grep -m1 "^VIOLATION" $D/out.txt | sed 's/.*replay=//')
 echo "replay file: $R"
 [ -z "$R" ] && { tail -5 $D/out.txt; exit 1; }
